@@ -36,4 +36,15 @@ def hmfIntegralGtm (massDensity : Bool) (extend : Bool) (m dndm : List α) (nUpp
   let up := if extend then intUpper massDensity m dndm nUpper else zero
   (cumtrapzRev dlnm integrand).map (fun x => Sci.add x up)
 
+/-- `M[~isnan(dndm)]`, `dndm[~isnan(dndm)]`: rows whose dn/dm is not equal to itself (NaN) are dropped -/
+def dropBy (keep : α → Bool) (m dndm : List α) : List α × List α :=
+  let rows := (m.zip dndm).filter (fun p => keep p.2)
+  (rows.map (·.1), rows.map (·.2))
+
+def dropNaN (m dndm : List α) : List α × List α := dropBy (fun x => Sci.beq x x) m dndm
+
+/-- `hmf_integral_gtm` on the raw table (NaN rows still in) -/
+def hmfIntegralGtmRaw (massDensity : Bool) (extend : Bool) (M dndm : List α) (nUpper : Nat) : List α :=
+  hmfIntegralGtm massDensity extend (dropNaN M dndm).1 (dropNaN M dndm).2 nUpper
+
 end Hmf.Lists
